@@ -77,26 +77,33 @@ def _lens_of(t):
 
 
 class _Inc:
-    """incremental solver following the DFS over path conditions (push/pop per pc entry)"""
+    """incremental solver following the DFS over path conditions (push/pop per pc entry).
+
+    A model of the current stack is cached: a query whose answer the model already shows (the new
+    condition is false in a model of the path condition => not entailed; a model exists => feasible)
+    needs no solver call."""
 
     def __init__(self):
         self.s = z3.Solver()
         self.s.set('timeout', 250)
         self.stack = []         # pc terms currently asserted (kept alive)
+        self.abs = []           # their abstractions (or None)
+        self.model = None
+        self.model_len = 0      # model satisfies abs[0:model_len]
         self.checks = 0
+        self.saved = 0
 
     def sync(self, pc):
         k = 0
         n = min(len(self.stack), len(pc))
-        while k < n and self.stack[k] is pc[k]:
+        while k < n and (self.stack[k] is pc[k] or self.stack[k].eq(pc[k])):
             k += 1
-        if k < n:
-            # identity differs: compare by AST equality
-            while k < n and self.stack[k].eq(pc[k]):
-                k += 1
         for _ in range(len(self.stack) - k):
             self.s.pop()
         del self.stack[k:]
+        del self.abs[k:]
+        if self.model_len > k:
+            self.model_len = k
         for p in pc[k:]:
             self.s.push()
             a = abstract(p)
@@ -105,6 +112,26 @@ class _Inc:
                 for c in _lens_of(p):
                     self.s.add(c >= 0)
             self.stack.append(p)
+            self.abs.append(a)
+
+    def _model_covers_stack(self):
+        if self.model is None:
+            return False
+        m = self.model
+        while self.model_len < len(self.abs):
+            a = self.abs[self.model_len]
+            if a is not None:
+                try:
+                    v = m.eval(a, model_completion=True)
+                except z3.Z3Exception:
+                    return False
+                if not z3.is_true(v):
+                    return False
+                for c in _lens_of(self.stack[self.model_len]):
+                    if not z3.is_true(m.eval(c >= 0, model_completion=True)):
+                        return False
+            self.model_len += 1
+        return True
 
     def entails(self, pc, cond):
         a_cond = abstract(cond)
@@ -112,13 +139,22 @@ class _Inc:
             return False
         try:
             self.sync(pc)
+            if self._model_covers_stack():
+                v = self.model.eval(a_cond, model_completion=True)
+                if z3.is_false(v):
+                    self.saved += 1
+                    return False
             self.s.push()
             try:
                 self.s.add(z3.Not(a_cond))
                 for c in _lens_of(cond):
                     self.s.add(c >= 0)
                 self.checks += 1
-                return self.s.check() == z3.unsat
+                r = self.s.check()
+                if r == z3.sat:
+                    self.model = self.s.model()
+                    self.model_len = len(self.abs)
+                return r == z3.unsat
             finally:
                 self.s.pop()
         except z3.Z3Exception:
